@@ -44,6 +44,7 @@ class Opts(object):
         self.boolops = False       # and/or/not/conditional expressions with side-effecting operands
         self.comprehension = False
         self.global_ = False       # `global G` + assignments to G
+        self.only = None           # optional set of construct names: only these (plus assign) are generated
         self.fresh_for_targets = False   # every for loop gets its own target name (i1, i2, ...) never assigned elsewhere
         self.helper_calls = False  # calls to module-level helpers H1 / H2 (recursive conversion)
         self.__dict__.update(kw)
@@ -142,6 +143,8 @@ class Gen(object):
             choices += ['attr', 'sub', 'append']
         if o.global_:
             choices += ['global']
+        if o.only is not None:
+            choices = [x for x in choices if x in o.only or x == 'assign']
         c = r.choice(choices)
         if c == 'attr':
             self.emit(ind, 'o.v %s %s' % (r.choice(['=', '=', '+=']), self.texpr(defined)))
